@@ -141,7 +141,9 @@ CLAIMED["C01"] = (
     "exactly the loaded relationships with the same ids/types/modes and external targets verbatim, internal targets "
     "resolve back to the same part (via C19's round-trip theorem, any depth), and every part's content type is what the "
     "reader computes from the content-types item the writer composes (Override/Default, case-insensitive, several parts "
-    "sharing an extension but not a type).  Tied to the code by exact comparison of the saved zip (member order, "
+    "sharing an extension but not a type); the relationship items are a fixed point of writing (the (number, id) order is a strict "
+    "total order, sorted() delivers a sorted list and leaves one alone; writing an item, reading it back and writing it again "
+    "reproduces ids, order, modes and targets: savedRels_second_generation).  Tied to the code by exact comparison of the saved zip (member order, "
     "[Content_Types].xml, every rels item, payload identity) and of a second open+save generation with the model on seeded "
     "random packages fed as stream / path / directory, plus an independent OPC oracle and the corpus decks.",
     "Trusted: XML codec of rels/content-types items, zipfile and directory readers (runtime, sampled); payload bytes are "
